@@ -662,10 +662,16 @@ class _Session:
             rows.append(s)
         return rows
 
-    def spell(self, value):
-        """The same number in another spelling: Python int/float and NumPy scalars of several widths."""
+    def spell(self, value, timeout=False):
+        """The same number in another spelling: Python int/float and NumPy scalars of several widths.
+        (Timeouts only as Python numbers and 64-bit NumPy scalars: `Popen.communicate(timeout=np.float32(..))` computes its
+        deadline `time.monotonic() + timeout` in float32 under NumPy 2's promotion rules — the standard library's quirk, not
+        biotite's; observed: `communicate(timeout=np.float32(0))` on an exited child returns instead of raising.)"""
         import numpy as np
         self._spell_i += 1
+        if timeout:
+            forms = [float(value), np.float64(value)] + ([int(value), np.int64(value)] if float(value) == int(value) else [])
+            return forms[self._spell_i % len(forms)]
         if float(value) == int(value):
             forms = [float(value), int(value), np.float64(value), np.int64(value), np.float32(value), np.int16(value), np.int8(value)]
             if value >= 0:
@@ -824,7 +830,7 @@ class _Session:
                     return self._join_watched(None, 10.0)
                 timeout = {"t": TIMEOUT, "5": 5.0, "0": 0, "0.0": 0.0}[w[1]]
                 if self._spell_i % 3 == 0:            # every third join passes the same timeout as a NumPy scalar
-                    timeout = self.spell(timeout)
+                    timeout = self.spell(timeout, timeout=True)
                 self._spell_i += 1
                 return self._join_watched(timeout, 12.0 if w[1] == "5" else 2.0)
             if w[0] == "cancel":
@@ -1876,9 +1882,11 @@ def oracle(case):
     if seqkind.startswith("generic") and wrapper in ("muscle3", "mafft") and not (wrapper == "muscle3" and tool in LAUNCH_FAILURE):
         k = int(seqkind[7:] or 3)
         r0 = trace[0]["result"]
-        if k <= len(PROTEIN_LETTERS) and r0 != "ok":
+        if nseq < 2:
+            pass          # "at least two sequences" is checked first (ValueError), whatever the alphabet
+        elif k <= len(PROTEIN_LETTERS) and r0 != "ok":
             v.append((f"C20/map_sequence/legal-alphabet-rejected/{k}", f"`{case['ops'][0]}` -> {r0}: an alphabet of {k} symbols fits the amino-acid alphabet"))
-        if k > len(PROTEIN_LETTERS) and r0 != "ERR:TypeError":
+        elif k > len(PROTEIN_LETTERS) and r0 != "ERR:TypeError":
             v.append((f"C20/map_sequence/oversized-alphabet-accepted/{k}", f"`{case['ops'][0]}` -> {r0}"))
     documented = {"start": set("ERR:" + e for e in LAUNCH_FAILURE.values()),
                   "join": {"ERR:TimeoutError", "ERR:SubprocessError", "ERR:EvalFailure"},
